@@ -492,6 +492,10 @@ def main(run):
                        "time with its lines permuted; separate streams: self pair of the report commodity (F12/F21, fixed), duplicate keys (statistics only), configuration errors. "
                        "non-trivial = at least one posting converted; distinct = distinct converted outputs")
     run.violations.sort(key=lambda v: not v[2])      # violations with a concrete failing input first
+    run.notes["journal_zones"] = {
+        "non_utc_offset": sum(1 for c in cases if c.get("tz_off")), "non_midnight_default_time": sum(1 for c in cases if c.get("deftime")),
+        "given_time_cutoff_without_zone": sum(1 for c in cases if c["lt"] == "given-time" and c["before"] and not (c["before"].endswith("Z") or "+" in c["before"][10:] or "-" in c["before"][10:])),
+        "given_time_cutoff_without_zone_in_non_default_zone": sum(1 for c in cases if c["lt"] == "given-time" and c["before"] and (c.get("tz_off") or c.get("deftime")) and not (c["before"].endswith("Z") or "+" in c["before"][10:] or "-" in c["before"][10:]))}
     run.notes.update({"stages": stages, "verdict_classes": verdicts, "tags": tagc, "lookup_types": lts,
                       "postings_observed": n_posts, "postings_converted": n_conv, "permuted_file_runs": n_perm,
                       "files_with_self_pair": n_self, "metadata_records_target_to_target": n_listed_unapplied})
